@@ -40,9 +40,19 @@ class CounterModel(object):
         self.evalmon_midrun = False
         self.stepmon_midrun = False
 
+    @staticmethod
+    def collapse_applied(h):
+        """did Solve() apply a collapse (=> SetConstraints/SetTermination => Finalize) and carry on?  seen as a grown mask"""
+        try:
+            import mystic.termination as mt
+            st = mt.state(h.solver._termination)
+            return any(k.startswith('Collapse') and v.get('mask') for k, v in st.items() if isinstance(v, dict))
+        except Exception:
+            return False
+
     def tags(self, h):
         return {'resumed': self.resumed_after_stop, 'set_midrun': h.started and self.set_since_step,
-                'continued_after_finalize': self.continued_after_finalize,
+                'continued_after_finalize': self.continued_after_finalize or (bool(h.solvers) and self.collapse_applied(h)),
                 'stop_by_precheck': self.stop_by_precheck, 'evalmon_midrun': self.evalmon_midrun,
                 'stepmon_midrun': self.stepmon_midrun}
 
@@ -193,10 +203,15 @@ class CounterModel(object):
                           '(monitor has %d records, log %d)' % (when, d, len(em['y']), len(wy)), **T)
         # (4) generations == completed iterations
         if h.started:
-            it = max(0, h.steps_executed - 1)
+            nsteps = max(h.steps_executed, h.real_steps)
+            it = max(0, nsteps - 1)
             if s['generations'] != it:
                 h.violate(self.P, 'generations_ne_iterations', detail='%s: generations=%r but %d _Step executed '
-                          '(=> %d completed iterations)' % (when, s['generations'], h.steps_executed, it), **T)
+                          '(=> %d completed iterations)' % (when, s['generations'], nsteps, it), **T)
+        # (4b) the callback is invoked exactly once per executed iteration (real executions are counted at the _Step seam)
+        if when in ('after_step', 'after_solve') and h.real_steps != h.steps_executed:
+            h.violate(self.P, 'callback_count', detail='%s: %d iterations were executed, the callback was invoked %d times'
+                      % (when, h.real_steps, h.steps_executed), **T)
         # (5) step monitor of a stopped run: one record per generation, ending in the result
         if self.stopped and h.started and not self.dirty and when in ('after_step', 'after_solve'):
             sm = s['stepmon']
